@@ -131,7 +131,7 @@ theorem Inv.noteOffers (h : Inv jid U NR p c) (st : XTree) : Inv jid U NR p (Con
   · have := h.q; dsimp only; rw [sm.2.2.2.1]; exact this
   · intro a; rw [sm.1]; exact (h.gg.cg a).2.1
   · exact h.h.weaken sm.1 sm.2.2.2.1 (fun a => by rw [sm.2.1]; exact a) (fun a => by rw [sm.2.2.1]; exact a)
-      id (fun a => ⟨a, id⟩) id id
+      id (fun a => ⟨a, id⟩) id id (fun a => Or.inl a)
 
 /-! ### `_handle_sasl_children` -/
 
@@ -199,13 +199,21 @@ def keys (c : Conn) : List HK := c.handlers.map hkey ++ c.idHandlers.map hkey
 
 theorem Inv.enter (h : Inv jid U NR p c) (hx : p.x = none) {u : Nat} {K : SysH} {usr : Bool}
     (hk : (u, HFun.sys K, usr) ∈ keys c) (hK : K ≠ .error)
-    (hnt : ∀ k ∈ c.timed.map tkey, k.2.1 = .missingFeatures → p.y = some k.1) :
-    Inv jid U NR { p with x := some u } c ∧ PendNil (some u) c := by
+    (hnt : ∀ k ∈ c.timed.map tkey, k.2.1 = .missingFeatures → p.y = some k.1) (xs : Bool)
+    (hside : (xs = true → (u, HFun.sys K, usr) ∈ c.handlers.map hkey) ∧
+      (xs = false → (u, HFun.sys K, usr) ∈ c.idHandlers.map hkey)) :
+    Inv jid U NR { p with x := some u, xs := xs } c ∧ PendNil (some u) c := by
   have hh := h.h; rw [hx] at hh
-  refine ⟨⟨h.cfg, h.q, h.e, h.gg, hh.enter u (hh.uidH _ hk) hnt, h.f.congr rfl rfl id id, h.ts⟩, ?_⟩
-  intro k a nk
-  have := hh.one k a _ hk nk ⟨K, rfl, hK⟩ (by simp) (by simp)
-  rw [this]
+  have nd := hh.nd
+  simp only [List.map_append, List.nodup_append] at nd
+  refine ⟨⟨h.cfg, h.q, h.e, h.gg, hh.enter u (hh.uidH _ hk) hnt xs ⟨?_, ?_⟩, h.f.congr rfl rfl id id, h.ts⟩, ?_⟩
+  · intro e k a b'
+    exact nd.2.2 _ (List.mem_map_of_mem (hside.1 e)) _ (List.mem_map_of_mem a) b'.symm
+  · intro e k a b'
+    exact nd.2.2 _ (List.mem_map_of_mem a) _ (List.mem_map_of_mem (hside.2 e)) b'
+  · intro k a nk
+    have := hh.one k a _ hk nk ⟨K, rfl, hK⟩ (by simp) (by simp)
+    rw [this]
 
 theorem Inv.pend_phase (h : Inv jid U NR p c) (hx : p.x = none) {u : Nat} {K : SysH} {usr : Bool}
     (hk : (u, HFun.sys K, usr) ∈ keys c) (hK : K ≠ .error) :
@@ -233,7 +241,7 @@ structure PC (p : Par) : Prop where
 theorem PC.hc {p : Par} (pc : PC p) (hn : PendNil p.x c) (nn : c.g.notifiedConnect = false) : HC p c :=
   ⟨hn, nn, pc.rpb, pc.pb, pc.sb, pc.rb⟩
 
-theorem PC.setX {p : Par} (pc : PC p) (x : Option Nat) : PC { p with x := x } :=
+theorem PC.setX {p : Par} (pc : PC p) (x : Option Nat) (xs : Bool) : PC { p with x := x, xs := xs } :=
   ⟨pc.rpb, pc.pb, pc.sb, pc.rb⟩
 
 /-! ### `_handle_features` -/
@@ -294,13 +302,15 @@ theorem hf3_spec (c2 : Conn) :
   · exact ⟨c2.saslSupport, rfl, fun i a => a⟩
 
 theorem Inv.handleFeatures (h : Inv jid U NR p c) (hx : p.x = none) (pc : PC p) {u : Nat} {usr : Bool}
-    (hk : (u, HFun.sys .features, usr) ∈ keys c) (st : XTree) :
-    Inv jid U NR { p with x := some u } (Conn.handleFeatures c st) := by
+    (hk : (u, HFun.sys .features, usr) ∈ keys c) (xs : Bool)
+    (hside : (xs = true → (u, HFun.sys .features, usr) ∈ c.handlers.map hkey) ∧
+      (xs = false → (u, HFun.sys .features, usr) ∈ c.idHandlers.map hkey)) (st : XTree) :
+    Inv jid U NR { p with x := some u, xs := xs } (Conn.handleFeatures c st) := by
   obtain ⟨hnn, hph⟩ := h.pend_phase hx hk (by simp)
   have hph : c.g.authOk = false := hph
   have h0 := (h.noteOffers st).delTimed .missingFeatures
   obtain ⟨h1, hnil⟩ := h0.enter (u := u) (K := .features) (usr := usr) hx hk (by simp)
-    (fun k a b' => absurd b' (delTimed_none _ _ k a))
+    (fun k a b' => absurd b' (delTimed_none _ _ k a)) xs hside
   have sm := noG_same st c.g
   rw [handleFeatures_eq]
   generalize hc0 : Conn.delTimed (Conn.noteOffers c st) TFun.missingFeatures = c0 at h1 hnil
@@ -355,11 +365,11 @@ theorem Inv.sessionStart (h : Inv jid U NR p c) (hc : HC p c) (ha : c.g.authOk =
   exact h1.sendStanzaLib _ _ (by simp) (fun _ _ _ => ⟨hos, ha⟩)
     (fun _ hh => by obtain ⟨_, _, _, e⟩ := hh; cases e)
 
-theorem InvH.setSmE {x y st sec smE smR pst rp oh raw hk ik tk n g}
-    (h : InvH x y st sec smE smR pst rp oh raw hk ik tk n g)
+theorem InvH.setSmE {x y xs mb st sec smE smR pst rp oh raw hk ik tk n g}
+    (h : InvH x y xs mb st sec smE smR pst rp oh raw hk ik tk n g)
     (hsm : ∀ k ∈ hk ++ ik, negK k → x ≠ some k.1 → k.2.1 = .sys .sm)
     (hrp : rp = false) (hps : pst ≠ .fresh) :
-    InvH x y st sec true smR pst rp oh raw hk ik tk n g := by
+    InvH x y xs mb st sec true smR pst rp oh raw hk ik tk n g := by
   refine { h with phase := ?_, fr := ?_ }
   · intro k a s hs hs' e
     have hk' := hsm k a ⟨s, hs, hs'⟩ e
@@ -473,7 +483,7 @@ theorem Inv.handleFeaturesSasl (h : Inv jid U NR p c) (hc : HC p c) (hlive : c.s
       refine ⟨h3.cfg, h3.q, h3.e, ?_, ?_, h3.f, h3.ts⟩
       · refine { h3.gg with smB := ?_, nc := fun a => absurd hst0 a }
         intro a; rw [hg0]; exact noG_bind st _ a
-      · exact h3.h.weaken rfl rfl id id id (fun a => ⟨a, fun x => by cases x⟩) id id
+      · exact h3.h.weaken rfl rfl id id id (fun a => ⟨a, fun x => by cases x⟩) id id (fun a => Or.inl a)
     have h5 := h4.sendStanzaLib (.resume (c0.sm.previd.getD []) c0.sm.handledNr) .smStrophe (by simp)
       (fun _ _ _ => ⟨h3.gg.smS hss', ha0⟩) (fun _ hh => by obtain ⟨_, _, _, e⟩ := hh; cases e)
     obtain ⟨q, n, r, e5⟩ := sendStanza_shape { c0 with bindRequired := (st.childByNameNs (b "bind") Gen.nsBind).isSome, sessionRequired := sr, sm := { c0.sm with support := ss, bind := (st.childByNameNs (b "bind") Gen.nsBind).isSome, resume := true } }
